@@ -38,6 +38,11 @@ def _(etype: "Type", type_map: "Any", cond: "Any") -> "Any":
 def _(t: "Type", t_param: "TypeParameter", factory: "Any") -> "Any":
     use_profile("wildcards")
     requires("constants", VarianceConstants(0))
+    # (used by get_bound_rec, i.e. by the bound checks of unification, C10) a type variable in a position that is DECLARED
+    # contravariant becomes a star projection, in any other position an out-projection
+    site("WildCardType", "star-if-declared-contravariant", implies(t_param.is_contravariant(),
+                                                                     new.bound is None and new.variance.value == 0))
+    site("WildCardType", "out-projection-otherwise", implies(not t_param.is_contravariant(), new.variance.value == 1))
 
 
 @contract("src.ir.types.ParameterizedType.to_type_variable_free")
